@@ -3,6 +3,7 @@ CONSTANTS
   MaxSize = 600
   MaxCount = 6
   Threshold = 600
+  InMem = FALSE
   Reserve = 41
   KLens = {1, 12}
   FixedV = {0, 7, 600}
